@@ -91,8 +91,10 @@ def run(ctx):
         ctx.check(okk, "R2", "first-matching-sibling-wins:%s" % tag, ctx.where(body), detail)
         # the walk is the only place a sibling is evaluated: a call of the per-policy function outside the loop (a direct lookup of
         # "the" entry for this client, say) applies a sibling ahead of earlier ones that also match
-        family_calls = [(x, bb, tm) for x in P.family(body.id) for bb, tm in x.calls() if callee_name(tm) == callee]
-        outside = [P.rel(tm["sp"]) for x, bb, tm in family_calls if x.id != body.id or not any(bb in l for l in loops)]
+        # (a closure of the walk is the walk written with an iterator adaptor — `policies.iter().any(|p| apply_policy(..))` — and is
+        # spliced into this body as a loop when it is built here; what counts is a call in the function's own straight-line code)
+        family_calls = [(x, bb, tm) for x in (body,) for bb, tm in x.calls() if callee_name(tm) == callee]
+        outside = [P.rel(tm["sp"]) for x, bb, tm in family_calls if not any(bb in l for l in loops)]
         ctx.check(not outside, "R2", "siblings-are-evaluated-only-by-the-walk:%s" % tag, ctx.where(body),
                   "the per-policy function is also called outside the loop over the sibling list: %s" % (outside or "-"))
         if tag == "check":
